@@ -11,6 +11,8 @@ NOT PROVED: `C02_full` — that the Go code implements these transformations (an
 -/
 import Dawgs.Proofs.C02
 import Dawgs.Proofs.C01S2Sound
+import Dawgs.Proofs.C01ChainSound
+import Dawgs.Proofs.C01Count
 import Dawgs.Proofs.C01Pred
 import Dawgs.Generated.C02Guard
 namespace Dawgs.C02.Props
@@ -326,14 +328,70 @@ theorem countWhere_ok (km : KindMap) (g : Graph) (hinj : ∀ a b i, km.id? a = s
     subst hw
     exact ⟨_, count_fast_path_hyp_kinds km g hinj ks e he⟩
 
+theorem ofCyChain_wf (q : Cy.Query) (s : C01.Ch.Query) (h3 : C01.ofCyChain q = some s) : s.wf = true := by
+  unfold C01.ofCyChain at h3
+  split at h3
+  · split at h3
+    · cases h3
+    · simp only [bind, Option.bind_eq_some_iff, pure] at h3
+      obtain ⟨_, _, _, _, h3⟩ := h3
+      split at h3
+      · rename_i hw; cases h3; exact hw
+      · cases h3
+  · cases h3
+
+/-- a one-hop query has no chain reading (a chain has two or three hops) -/
+theorem hop_not_chain (s : C01.S2.Query) : C01.ofCyChain s.toCy = none := by
+  cases h3 : C01.ofCyChain s.toCy with
+  | none => rfl
+  | some c =>
+    exfalso
+    have hc := C01.Proofs.ofCyChain_sound _ c h3
+    have hwf := ofCyChain_wf _ c h3
+    have hcl := congrArg Cy.Query.clauses hc
+    simp only [C01.Ch.Query.toCy, C01.S2.Query.toCy, List.cons.injEq, Cy.Clause.match.injEq, Cy.PatternPart.mk.injEq, and_true, true_and] at hcl
+    have hlen : c.hops.length = 1 := by
+      have := congrArg List.length hcl.1.2
+      simpa using this
+    unfold C01.Ch.Query.wf at hwf
+    simp [hlen] at hwf
+
+/-- a count query has no plain-S1 / hop / chain reading (its only RETURN item is an aggregate) — used to order the case analysis -/
+theorem count_readings (q : Cy.Query) (s : C01.S1c.Query) (h : C01.ofCyCount1 q = some s) :
+    C01.ofCy q = none ∧ C01.ofCy2 q = none ∧ C01.ofCyChain q = none := by
+  have hq := C01.Proofs.ofCyCount1_sound q s h
+  subst hq
+  refine ⟨?_, ?_, ?_⟩
+  · simp [C01.ofCy, C01.S1c.Query.toCy, C01.itemOf, bind, Option.bind]
+    cases s.wh <;> simp [C01.itemOf]
+    split <;> rfl
+  · simp [C01.ofCy2, C01.S1c.Query.toCy]
+  · cases h3 : C01.ofCyChain s.toCy with
+    | none => rfl
+    | some c =>
+      exfalso
+      have hc := C01.Proofs.ofCyChain_sound _ c h3
+      have hwf := ofCyChain_wf _ c h3
+      have hcl := congrArg Cy.Query.clauses hc
+      simp only [C01.Ch.Query.toCy, C01.S1c.Query.toCy, List.cons.injEq, Cy.Clause.match.injEq, Cy.PatternPart.mk.injEq, and_true, true_and] at hcl
+      have hlen : c.hops.length = 0 := by
+        have := congrArg List.length hcl.1.2
+        simpa using this
+      unfold C01.Ch.Query.wf at hwf
+      simp [hlen] at hwf
+
 /-- two variants of the model translator answer together: either with the SAME S1 statement (the optimiser changes nothing there), or with
-the hop statement of the same S2 query in the join order each variant picked, or with the two count statements over the same frame predicate -/
-theorem trVariant_cases (fo fu : C01.S2.Query → Bool) (km : KindMap) (q : Cy.Query) (so su : Stmt) (po pu : List (String × Val))
-    (ho : trVariant fo true km q = some (so, po)) (hu : trVariant fu false km q = some (su, pu)) :
+the hop / chain statement of the same S2b / S2c query in the join order each variant picked, or with the count statements of the same S1c
+query with the fast path on / off -/
+theorem trVariant_cases (fo fu : C01.S2.Query → Bool) (co cu : C01.Ch.Query → Bool) (km : KindMap) (q : Cy.Query) (so su : Stmt) (po pu : List (String × Val))
+    (ho : trVariant fo co true km q = some (so, po)) (hu : trVariant fu cu false km q = some (su, pu)) :
     (C01.tr km q = some (so, po) ∧ su = so ∧ pu = po) ∨
     (∃ s : C01.S2.Query, s.toCy = q ∧ s.trWith km (fo s) = some so ∧ s.trWith km (fu s) = some su ∧ po = [] ∧ pu = []) ∨
-    (∃ ks w, ofCyCount q = some ks ∧ countWhere km ks = some w ∧ so = countOptW w ∧ su = countUnoptW w ∧ po = [] ∧ pu = []) := by
+    (∃ s : C01.Ch.Query, s.toCy = q ∧ s.trWith km (co s) = some so ∧ s.trWith km (cu s) = some su ∧ po = [] ∧ pu = []) ∨
+    (∃ s : C01.S1c.Query, s.toCy = q ∧ s.trWith km true = some so ∧ s.trWith km false = some su ∧ po = [] ∧ pu = []) := by
   unfold trVariant at ho hu
+  unfold C01.tr4F at ho hu
+  unfold C01.tr3F at ho hu
   unfold C01.tr2F at ho hu
   cases h1 : C01.tr km q with
   | some r =>
@@ -347,18 +405,17 @@ theorem trVariant_cases (fo fu : C01.S2.Query → Bool) (km : KindMap) (q : Cy.Q
     | some s =>
       rw [h2] at ho hu
       dsimp only at ho hu
+      have hq := C01.Proofs.ofCy2_sound q s h2
+      have hnoch : C01.ofCyChain q = none := by rw [← hq]; exact hop_not_chain s
+      have hnoc : C01.ofCyCount1 q = none := by
+        cases hc : C01.ofCyCount1 q with
+        | none => rfl
+        | some c => have := (count_readings q c hc).2.1; rw [h2] at this; cases this
       cases hso : s.trWith km (fo s) with
       | none =>
         rw [hso] at ho
-        simp only [Option.map_none] at ho
-        -- the hop translator declines: both variants fall through to the count fragment, which a hop query is not in
-        cases hc : ofCyCount q with
-        | none => rw [hc] at ho; cases ho
-        | some ks =>
-          exfalso
-          have hq := C01.Proofs.ofCy2_sound q s h2
-          rw [← hq] at hc
-          simp [ofCyCount, C01.S2.Query.toCy] at hc
+        simp only [Option.map_none, hnoch, hnoc] at ho
+        cases ho
       | some st =>
         rw [hso] at ho
         simp only [Option.map_some] at ho
@@ -366,7 +423,6 @@ theorem trVariant_cases (fo fu : C01.S2.Query → Bool) (km : KindMap) (q : Cy.Q
         cases hsu : s.trWith km (fu s) with
         | none =>
           exfalso
-          -- the two join orders translate together (the order only permutes the joins)
           unfold C01.S2.Query.trWith at hso hsu
           cases hwf : s.wf <;> simp [hwf] at hso hsu
           cases hka : C01.S2.kindIds? km s.akinds <;> cases hkr : C01.S2.kindIds? km s.rkinds <;> cases hkb : C01.S2.kindIds? km s.bkinds <;>
@@ -376,31 +432,68 @@ theorem trVariant_cases (fo fu : C01.S2.Query → Bool) (km : KindMap) (q : Cy.Q
           rw [hsu] at hu
           simp only [Option.map_some] at hu
           cases hu
-          exact Or.inr (Or.inl ⟨s, C01.Proofs.ofCy2_sound q s h2, hso, hsu, rfl, rfl⟩)
+          exact Or.inr (Or.inl ⟨s, hq, hso, hsu, rfl, rfl⟩)
     | none =>
       rw [h2] at ho hu
       dsimp only at ho hu
-      cases hc : ofCyCount q with
-      | none => rw [hc] at ho; cases ho
-      | some ks =>
-        rw [hc] at ho hu
+      cases h3 : C01.ofCyChain q with
+      | some s =>
+        rw [h3] at ho hu
         dsimp only at ho hu
-        cases hw : countWhere km ks with
-        | none => rw [hw] at ho; cases ho
-        | some w =>
-          rw [hw] at ho hu
-          cases ho; cases hu
-          exact Or.inr (Or.inr ⟨ks, w, rfl, hw, rfl, rfl, rfl, rfl⟩)
+        have hq := C01.Proofs.ofCyChain_sound q s h3
+        have hnoc : C01.ofCyCount1 q = none := by
+          cases hc : C01.ofCyCount1 q with
+          | none => rfl
+          | some c => have := (count_readings q c hc).2.2; rw [h3] at this; cases this
+        cases hso : s.trWith km (co s) with
+        | none =>
+          rw [hso] at ho
+          simp only [Option.map_none, hnoc] at ho
+          cases ho
+        | some st =>
+          rw [hso] at ho
+          simp only [Option.map_some] at ho
+          cases ho
+          cases hsu : s.trWith km (cu s) with
+          | none =>
+            exfalso
+            unfold C01.Ch.Query.trWith at hso hsu
+            cases hwf : s.wf <;> simp [hwf] at hso hsu
+            cases hh : s.hops with
+            | nil => simp [hh] at hso
+            | cons h0 hs =>
+              simp only [hh] at hso hsu
+              cases hka : C01.S2.kindIds? km s.akinds <;> cases hk0 : C01.Ch.hopKinds km h0 <;> cases hr : C01.Ch.stepCtes km 1 hs <;>
+                simp [hka, hk0, hr, bind, Option.bind] at hso hsu
+          | some st' =>
+            rw [hsu] at hu
+            simp only [Option.map_some] at hu
+            cases hu
+            exact Or.inr (Or.inr (Or.inl ⟨s, hq, hso, hsu, rfl, rfl⟩))
+      | none =>
+        rw [h3] at ho hu
+        dsimp only at ho hu
+        cases hc : C01.ofCyCount1 q with
+        | none => rw [hc] at ho; cases ho
+        | some s =>
+          rw [hc] at ho hu
+          dsimp only at ho hu
+          obtain ⟨so', hso, heq⟩ := Option.map_eq_some_iff.mp ho
+          obtain ⟨su', hsu, heq'⟩ := Option.map_eq_some_iff.mp hu
+          cases heq; cases heq'
+          exact Or.inr (Or.inr (Or.inr ⟨s, C01.Proofs.ofCyCount1_sound q s hc, hso, hsu, rfl, rfl⟩))
 
-/-- `opt_equiv`: `C02_full` holds for every pair of variants of the model translator (`trVariant fo true`, `trVariant fu false`) — for every
-graph with `GraphOK2` and every query of the proved fragment (C01 stages S1 and S2, and `MATCH (n[:K…]) RETURN count(n)`), whenever both
-statements evaluate they return the same bag of rows. Content: (1) a hop query may be translated in either join order by either variant
+/-- `opt_equiv`: `C02_full` holds for every pair of variants of the model translator (`trVariant fo co true`, `trVariant fu cu false`) — for
+every graph with `GraphOK2` and every query of the proved fragment (C01 stages S1, S1c, S2b, S2c), whenever both statements evaluate they
+return the same bag of rows. Content: (1) a hop or the first hop of a chain may be translated in either join order by either variant
 (lowering TraversalDirectionSelection vs. the selectivity balance): both are permutations of the Cypher result, hence of each other;
-(2) the count-store fast path (`count_fast_path_preserves`); (3) on S1 the statements are identical. That the REAL translator's two outputs
-are these statements is checked on every run (driver outcome `frag-tie`). -/
-theorem opt_equiv (fo fu : C01.S2.Query → Bool) : C02_full (trVariant fo true) (trVariant fu false) := by
+(2) the count-store fast path `select count(*)::int8 from node n0 [where kinds]` against the node frame + `count(s0.n0)`: both return the
+Cypher count; (3) on S1 the statements are identical. That the REAL translator's two outputs are these statements is checked on every run
+(driver outcome `frag-tie`). -/
+theorem opt_equiv (fo fu : C01.S2.Query → Bool) (co cu : C01.Ch.Query → Bool) : C02_full (trVariant fo co true) (trVariant fu cu false) := by
   intro km g q so su po pu hok ho hu to tu hto htu
-  rcases trVariant_cases fo fu km q so su po pu ho hu with ⟨_, hs, hp⟩ | ⟨s, hq, hso, hsu, hpo, hpu⟩ | ⟨ks, w, _, hw, hso, hsu, hpo, hpu⟩
+  rcases trVariant_cases fo fu co cu km q so su po pu ho hu with ⟨_, hs, hp⟩ | ⟨s, hq, hso, hsu, hpo, hpu⟩ | ⟨s, hq, hso, hsu, hpo, hpu⟩ |
+    ⟨s, hq, hso, hsu, hpo, hpu⟩
   · subst hs hp
     rw [hto] at htu; cases htu
     exact List.Perm.refl _
@@ -418,23 +511,39 @@ theorem opt_equiv (fo fu : C01.S2.Query → Bool) : C02_full (trVariant fo true)
       · rw [h] at htu; cases htu
     subst e1 e2
     exact hp1.trans hp2.symm
-  · subst hso hsu hpo hpu
-    obtain ⟨wsem, hwok⟩ := countWhere_ok km g hok.inj ks w hw
-    obtain ⟨h1, h2⟩ := count_fast_path_preserves km g w wsem hwok
-    rw [countOptW_eq] at hto
-    rw [countUnoptW_eq] at htu
-    have e1 : to = ⟨["count"], [[.int (passing g wsem)]]⟩ := by
-      rcases h1 with h | ⟨u, h⟩
+  · subst hpo hpu
+    obtain ⟨r1, n1, rows1, hr1, hb1, hp1⟩ := C01.Proofs.chain_sound km g hok s (co s) so hso
+    obtain ⟨r2, n2, rows2, hr2, hb2, hp2⟩ := C01.Proofs.chain_sound km g hok s (cu s) su hsu
+    rw [hr1] at hr2; cases hr2
+    have e1 : to = ⟨n1, rows1⟩ := by
+      rcases hb1 with h | ⟨u, h⟩
       · rw [h] at hto; cases hto; rfl
       · rw [h] at hto; cases hto
-    have e2 : tu = ⟨["count"], [[.int (passing g wsem)]]⟩ := by
-      rcases h2 with h | ⟨u, h⟩
+    have e2 : tu = ⟨n2, rows2⟩ := by
+      rcases hb2 with h | ⟨u, h⟩
       · rw [h] at htu; cases htu; rfl
       · rw [h] at htu; cases htu
-    rw [e1, e2]
+    subst e1 e2
+    exact hp1.trans hp2.symm
+  · subst hpo hpu
+    obtain ⟨r1, n1, rows1, hr1, hb1, hp1⟩ := C01.Proofs.count_sound km g hok.toGraphOK s true so hso
+    obtain ⟨r2, n2, rows2, hr2, hb2, hp2⟩ := C01.Proofs.count_sound km g hok.toGraphOK s false su hsu
+    rw [hr1] at hr2; cases hr2
+    have e1 : to = ⟨n1, rows1⟩ := by
+      rcases hb1 with h | ⟨u, h⟩
+      · rw [h] at hto; cases hto; rfl
+      · rw [h] at hto; cases hto
+    have e2 : tu = ⟨n2, rows2⟩ := by
+      rcases hb2 with h | ⟨u, h⟩
+      · rw [h] at htu; cases htu; rfl
+      · rw [h] at htu; cases htu
+    subst e1 e2
+    have : C01.Proofs.sqlRows ⟨n1, rows1⟩ = C01.Proofs.sqlRows ⟨n2, rows2⟩ := hp1.trans hp2.symm
+    unfold C01.Proofs.sqlRows at this
+    rw [this]
 
 /-- the instance for the model's own direction approximations -/
-theorem opt_equiv_default : C02_full trOpt trUnopt := opt_equiv C01.flipOpt C01.flipUnopt
+theorem opt_equiv_default : C02_full trOpt trUnopt := opt_equiv C01.flipOpt C01.flipUnopt (fun _ => false) (fun _ => false)
 
 /-- the fragment is inhabited on both branches -/
 def exCountRet : Cy.Projection :=
